@@ -508,6 +508,53 @@ fn main() {
         checks::finish(&cli, rep, t0);
     }
 
+    if cli.stage == "miri32" {
+        // A 32-BIT build of dasp, executed by the interpreter (usize narrower than the 48-bit
+        // types). Interpreter-sized: construction / From on boundary and out-of-range backing
+        // values, and the operators on a 14 x 14 boundary set, for all eight types.
+        rep.note(format!("usize::BITS = {} in this stage", usize::BITS));
+        if usize::BITS == 32 {
+            rep.hit("ran_with_32_bit_usize");
+        }
+        rep.oblige("ran_with_32_bit_usize", 1);
+        let mut ti = 0u64;
+        macro_rules! lean {
+            ($($T:ident),*) => {$({
+                ti += 1;
+                if ti % cli.nshards == cli.shard {
+                let (lo, hi) = (<$T as Cust>::lo(), <$T as Cust>::hi());
+                let m = 1i128 << <$T as Cust>::BITS;
+                let mid = (lo + hi) / 2;
+                let mut rng = Rng::derive(cli.seed, &[1532, <$T as Cust>::BITS as u64, <$T as Cust>::SIGNED as u64]);
+                let mut vals: Vec<i128> = vec![lo, lo + 1, hi, hi - 1, 0, 1, -1, mid, mid + 1, 1i128 << (<$T as Cust>::BITS - 2), 1i128 << 31, (1i128 << 32) + 5];
+                for _ in 0..cli.t(2, 26) {
+                    vals.push(rng.range_i128(lo, hi));
+                }
+                vals.retain(|v| <$T as Cust>::in_range(*v));
+                // backing-integer inputs to new() / From, in range and several periods out
+                let rep_min = -(1i128 << (<$T as Cust>::REP_BITS - 1));
+                let rep_max = (1i128 << (<$T as Cust>::REP_BITS - 1)) - 1;
+                for v in vals.iter().copied().chain([hi + 1, lo - 1, m, -m, m + 7, 3 * m - 1, -2 * m + 3, m * 5, rep_min, rep_max, rep_max - 1, rep_min + 1]) {
+                    if v >= rep_min && v <= rep_max {
+                        check_ctor::<$T>(v, &mut rep);
+                    }
+                }
+                for &a in &vals {
+                    for &b in &vals {
+                        check_binop::<$T>(Op::Add, a, b, &mut rep);
+                        check_binop::<$T>(Op::Sub, a, b, &mut rep);
+                        check_binop::<$T>(Op::Mul, a, b, &mut rep);
+                        check_ord::<$T>(a, b, &mut rep);
+                    }
+                }
+                rep.hit("types_exercised");
+                }
+            })*};
+        }
+        lean!(I11, U11, I20, U20, I24, U24, I48, U48);
+        rep.oblige("types_exercised", 8);
+        checks::finish(&cli, rep, t0);
+    }
     rep.oblige("types_exercised", 8);
     rep.oblige("products_congruent_to_a_range_boundary", 1);
     rep.oblige("neg_types_exercised", 3);
